@@ -164,26 +164,28 @@ def run(prop, tier, quick_slices, thorough_slices, nontrivial, drive_profile="mi
     res = vlib.tlc_many("MC_Endpoint", ["MC_%s.cfg" % n for n in names], wd, parallel=2 if thorough else 4,
                         workers=8 if thorough else 4, xmx="24g" if thorough else "8g", timeout=3000 if thorough else 600)
     mcs = {name: res["MC_%s.cfg" % name] for name in names}
-    # replay budget: shared between the slices in proportion to their size (small slices are replayed completely)
-    all_edges = sum(max(1, m["generated"]) for m in mcs.values())
+    # replay budget (number of maximal schedules): equal shares, what a small slice does not need goes to the larger ones
+    extracted = {}
     for name in names:
         mc = mcs[name]
-        # TLC writes one output per (module, cfg) pair
         if not mc["completed"] or mc["errors"]:
             txt = open(mc["out"], errors="replace").read()
             sv = [l[:600] for l in txt.splitlines() if l.startswith('<<"SPECVIOL"')][:2]
             raise vlib.ToolError("slice %s: the specification violates its own properties/invariants: %s %s" % (name, mc["errors"][:2], sv))
-        ef = os.path.join(wd, "edges_%s.ndjson" % name)
-        share = max(2500, int(limit * max(1, mc["generated"]) / all_edges))
-        total, kept = vlib.edges_to_file(mc["out"], ef, limit=share, rng_seed=rng.randrange(1 << 30), maximal=True)
-        covered = vlib.edges_to_file.covered
+        extracted[name] = vlib.maximal_schedules(mc["out"])
         os.remove(mc["out"])
-        if total == 0:
+        if extracted[name][0] == 0:
             raise vlib.ToolError("slice %s produced no transitions" % name)
-        states += mc["distinct"]
+    shares = vlib.water_fill({n: len(extracted[n][1]) for n in names}, limit)
+    for name in names:
+        total, lines, parent = extracted[name]
+        ef = os.path.join(wd, "edges_%s.ndjson" % name)
+        kept, covered = vlib.write_schedules(lines, parent, ef, limit=shares[name], rng_seed=rng.randrange(1 << 30))
+        states += mcs[name]["distinct"]
         transitions += total
-        per_slice[name] = {"states": mc["distinct"], "transitions": total, "replayed": covered, "schedules": kept}
+        per_slice[name] = {"states": mcs[name]["distinct"], "transitions": total, "replayed": covered, "schedules": kept, "maximal_schedules": len(lines)}
         edge_files.append(ef)
+    del extracted
 
     # one harness process + one Trace_Endpoint run per slice (and one for the random histories), side by side:
     # every TLC worker deserialises the whole trie it walks, so several small tries are cheaper than one big one
@@ -203,7 +205,8 @@ def run(prop, tier, quick_slices, thorough_slices, nontrivial, drive_profile="mi
             raise vlib.ToolError("the library behaved non-deterministically: %s" % phs["nondeterministic"][:1])
         pviols, pdrifts, _ = judge(prop, ptrie, pwd, workers=4 if thorough else 2)
         pnodes = vlib.load_trie(ptrie)
-        os.remove(ptrie)
+        if not os.environ.get("VERIF_KEEP"):
+            os.remove(ptrie)
         return pname, phs, pviols, pdrifts, pnodes
 
     from concurrent.futures import ThreadPoolExecutor
